@@ -25,7 +25,7 @@ RULES = {
     "C08": "well-formed processor (capabilities may dead-end); non-trivial = a stall error, or a run of at least 3 cycles; distinct = sha1",
 }
 CAPS = ["ALU", "MEM", "BR"]
-FAMILIES = ["parts", "bypass", "widechain", "loader", "small", "deadend", "wide", "illformed", "parts", "widechain", "bypass", "parts"]
+FAMILIES = ["parts", "bypass", "widechain", "loader", "small", "deadend", "wide", "illformed", "parts", "widechain", "bypass", "large"]
 TIMEOUT = 20.0
 
 
@@ -79,6 +79,11 @@ def gen_units(rng, family):
         nlayers = rng.randint(2, 4)
         widths = (2, 4)
         per = (1, 3)
+    elif family == "large":
+        # scale: deep and wide processors, four capabilities, long programs (see gen_prog)
+        nlayers = rng.randint(4, 7)
+        widths = (2, 6)
+        per = (1, 3)
     else:
         nlayers = rng.randint(1, 5)
         widths = (1, 3)
@@ -90,9 +95,11 @@ def gen_units(rng, family):
         uid += k
     ncaps = rng.randint(1, 3)
     caps = CAPS[:ncaps]
+    if family == "large":
+        caps = (CAPS + ["FPU"])[:rng.randint(2, 4)]
     ra = rng.randint(0, nlayers - 1)
     wb = rng.randint(ra, nlayers - 1)
-    perturb = 0.0 if family in ("small", "wide") else (0.5 if family == "illformed" else 0.08)
+    perturb = 0.0 if family in ("small", "wide", "large") else (0.5 if family == "illformed" else 0.08)
     units = {}
     used = set()
     for li, layer in enumerate(layers):
@@ -199,7 +206,7 @@ def build_from_loader(rng, units, edges):
         return None
 
 
-def gen_prog(rng, incaps, thorough, dense=False):
+def gen_prog(rng, incaps, thorough, dense=False, long_prog=False):
     """raw instruction specs (sources as supplied — possibly repeated, destination, capability); the real
     `HwInstruction` objects are built from the protocol form in `evaluate`"""
 
@@ -213,6 +220,16 @@ def gen_prog(rng, incaps, thorough, dense=False):
             prog.append((list(srcs), rng.choice(regs), incaps[0] if incaps else "ALU"))
         return prog
 
+    if long_prog:
+        n = rng.randint(12, 30)
+        regs = ["R%d" % i for i in range(rng.randint(3, 7))]
+        prog = []
+        for _ in range(n):
+            cap = rng.choice(incaps) if incaps else "ALU"
+            srcs = [rng.choice(regs) for _ in range(rng.randint(0, 4))]
+            dst = rng.choice(srcs) if srcs and rng.random() < 0.25 else rng.choice(regs)
+            prog.append((list(srcs), dst, cap))
+        return prog
     hi = 40 if thorough and rng.random() < 0.1 else 12
     n = rng.choice([0, 1, 2, 3]) if rng.random() < 0.15 else rng.randint(0, hi)
     regs = ["R%d" % i for i in range(rng.randint(2, 5))]
@@ -425,7 +442,8 @@ def gen_input(case, tier="quick"):
         units, edges, caps = gen_units(rng, "small")
         proc = build_from_parts(rng, units, set())
     incaps = sorted({c for m in list(proc.in_ports) + list(proc.in_out_ports) for c in m.capabilities})
-    prog = gen_prog(rng, incaps, tier == "thorough", dense=(family in ("widechain", "bypass") and rng.random() < 0.8))
+    prog = gen_prog(rng, incaps, tier == "thorough", dense=(family in ("widechain", "bypass") and rng.random() < 0.8),
+                    long_prog=(family == "large" or rng.random() < 0.03))
     return family, {"proc": proc_json(proc), "prog": intended_prog_json(rng, prog)}
 
 
